@@ -44,6 +44,18 @@ Definition g_note (s : sx) : note :=
 Definition g_notes (s : sx) : list note := map g_note (gL s).
 Definition g_stabs (s : sx) : list stab := map (fun x => map g_fval (gL x)) (gL s).
 
+(* section header: the ten fields in gABI order; program header: p_type p_flags p_offset p_vaddr
+   p_paddr p_filesz p_memsz p_align *)
+Definition g_shdr (s : sx) : shdr :=
+  let l := gL s in
+  {| sh_name := gI (nthx 0 l); sh_type := gI (nthx 1 l); sh_flags := gI (nthx 2 l); sh_addr := gI (nthx 3 l);
+     sh_offset := gI (nthx 4 l); sh_size := gI (nthx 5 l); sh_link := gI (nthx 6 l); sh_info := gI (nthx 7 l);
+     sh_addralign := gI (nthx 8 l); sh_entsize := gI (nthx 9 l) |}.
+Definition g_phdr (s : sx) : phdr :=
+  let l := gL s in
+  {| p_type := gI (nthx 0 l); p_flags := gI (nthx 1 l); p_offset := gI (nthx 2 l); p_vaddr := gI (nthx 3 l);
+     p_paddr := gI (nthx 4 l); p_filesz := gI (nthx 5 l); p_memsz := gI (nthx 6 l); p_align := gI (nthx 7 l) |}.
+
 (* ---- printing observations *)
 Definition sx_enum (e : enum_val) : sx :=
   match e with Name n => SS n | Raw v => SI v | MappingError => SS "MappingError" end.
@@ -89,6 +101,10 @@ Definition dispatch (req : sx) : sx :=
   else if op =? "enc_stabs" then SB (encode_stabs (gbool a1) (g_stabs a2))
   else if op =? "wf_stabs" then sx_bool (forallb (wf_stab (gbool a1)) (g_stabs a2))
   else if op =? "expected_stabs" then sx_stabs (expected_stabs (gbool a1) (gI a2) (g_stabs a3), None)
+  else if op =? "enc_shdr" then SB (encode_shdr (gbool a1) (gbool a2) (g_shdr a3))
+  else if op =? "wf_shdr" then sx_bool (wf_shdr (gbool a1) (gbool a2) (g_shdr a3))
+  else if op =? "enc_phdr" then SB (encode_phdr (gbool a1) (gbool a2) (g_phdr a3))
+  else if op =? "wf_phdr" then sx_bool (wf_phdr (gbool a1) (gbool a2) (g_phdr a3))
   else if op =? "pad_to" then SI (pad_to (gI a1) (gI a2))
   (* model *)
   else if op =? "section_notes" then sx_res sx_iter (section_notes_at (g_cfg a1) (gB a2) (gI a3))
